@@ -428,4 +428,28 @@ def inplaceCall (bs : Nat) (f : IOBuf → Option IOBuf) (buf : Bytes) : Outcome 
 def b2bCall (bs : Nat) (f : IOBuf → Option IOBuf) (inp out : Bytes) : Outcome :=
   if inp.length ≠ out.length then .err out else gatedIO bs f (IOBuf.b2b inp out)
 
+/-- the twelve closures -/
+inductive Op | cbc1e | cbc1d | cbc2e | cbc2d | cbc3e | cbc3d | ecb1e | ecb1d | ecb2e | ecb2d | ecb3e | ecb3d
+deriving DecidableEq, Repr
+
+/-- memory-level closure of each operation -/
+def Op.mem (o : Op) (C : Cipher) (w : Nat) (iv : Bytes) : IOBuf → Option IOBuf :=
+  match o with
+  | .cbc1e => MemCts.cbcCs1Enc C w iv | .cbc1d => MemCts.cbcCs1Dec C w iv
+  | .cbc2e => MemCts.cbcCs2Enc C w iv | .cbc2d => MemCts.cbcCs2Dec C w iv
+  | .cbc3e => MemCts.cbcCs3Enc C w iv | .cbc3d => MemCts.cbcCs3Dec C w iv
+  | .ecb1e => MemCts.ecbCs1Enc C w    | .ecb1d => MemCts.ecbCs1Dec C w
+  | .ecb2e => MemCts.ecbCs2 C.enc w C.bs | .ecb2d => MemCts.ecbCs2 C.dec w C.bs
+  | .ecb3e => MemCts.ecbCs3 C.enc w C.bs | .ecb3d => MemCts.ecbCs3 C.dec w C.bs
+
+/-- value-level mirror of each operation (what C01/C05/C14 are about) -/
+def Op.val (o : Op) (C : Cipher) (w : Nat) (iv : Bytes) : Bytes → Bytes :=
+  match o with
+  | .cbc1e => Cts.cbcCs1Enc C w iv | .cbc1d => Cts.cbcCs1Dec C w iv
+  | .cbc2e => Cts.cbcCs2Enc C w iv | .cbc2d => Cts.cbcCs2Dec C w iv
+  | .cbc3e => Cts.cbcCs3Enc false C w iv | .cbc3d => Cts.cbcCs3Dec false C w iv
+  | .ecb1e => Cts.ecbCs1Enc C w | .ecb1d => Cts.ecbCs1Dec C w
+  | .ecb2e => Cts.ecbCs2Enc C w | .ecb2d => Cts.ecbCs2Dec C w
+  | .ecb3e => Cts.ecbCs3Enc false C w | .ecb3d => Cts.ecbCs3Dec false C w
+
 end Impl.MemCts
